@@ -15,7 +15,8 @@ TYPES = {
     "decimal(10,2)": ["1.50", "-0.01", "12345678.90", "null"],
     "date": ["date '2024-02-29'", "date '1970-01-01'", "null"],
     "timestamp": ["timestamp '2024-02-29 23:59:59'", "null"],
-    "interval": ["interval '1' day", "interval '-2' month", "cast('1 day 2 hours 3 seconds' as interval)", "interval '0' day", "null"],
+    "interval": ["interval '1' day", "interval '-2' month", "cast('1 day 2 hours 3 seconds' as interval)", "interval '0' day", "cast('30 hours' as interval)",
+                 "cast('24 hours' as interval)", "cast('90 minutes' as interval)", "null"],
     "vector(3)": ["'[1,2,3]'", "'[0.5,-1,1e3]'"],
     "blob": ["'\\x00ff'", "'abc'", "'a''b'", "'c\\d,e'", "'q\"uo'", "null"],
     "varchar": ["'a'", "''", "'a,b'", "'say \"hi\"'", "'it''s'", "'l1\nl2'", "' lead'", "'NULL'", "'x|y'", "'tab\there'", "'say \"hi\", it''s me'", "'q\"|\"q'",
@@ -60,12 +61,24 @@ def tables(tier):
     return out
 
 
+def probes(rows):
+    """one `c0 = lit and c1 = lit ...` predicate per distinct row (IS NULL for NULL cells); small tables only"""
+    if len(rows) > 40:
+        return []
+    out = []
+    for r in rows:
+        p_ = " and ".join(f"c{i} is null" if v == "null" else f"c{i} = {v}" for i, v in enumerate(r))
+        if p_ not in out:
+            out.append(p_)
+    return out
+
+
 def run(tier, seed):
     chk = core.Check("C20", tier, "exploration",
                      "column type lists of length 1-2 over 11 scalar types x boundary cell values (each value alone in a 1-row table and all together; NULL, '', delimiter/quote/newline/tab in strings, the text NULL, extreme numbers) "
                      f"x {len(OPTIONS)} CSV option sets x {{memory, disk}}; COPY TO then COPY FROM into an identical table; a case = (types, rows, options, engine); non-trivial = table non-empty", seed)
     ts = tables(tier)
-    scripts, meta, files = [], [], []
+    scripts, meta, files, nprobes = [], [], [], []
     n = 0
     for engine in ("mem", "disk"):
         for types, rows in ts:
@@ -80,8 +93,14 @@ def run(tier, seed):
                 steps = [{"sql": f"create table t({cols})"}, {"sql": f"create table u({cols})"}, {"sql": ins},
                          {"sql": f"copy t to '{f}'{opt}"}, {"sql": f"copy u from '{f}'{opt}"},
                          {"sql": "select * from t"}, {"sql": "select * from u"}]
+                # value probes: the rows of both tables are also compared by value (`=` against the inserted literals), not
+                # only through their printed form (a value whose text form loses information prints the same on both sides)
+                ps = probes(rows)
+                for p_ in ps:
+                    steps += [{"sql": f"select count(*) from t where {p_}"}, {"sql": f"select count(*) from u where {p_}"}]
                 scripts.append({"id": 0, "engine": engine, "opts": {"block": 16384, "rowset": 1 << 20}, "steps": steps})
                 meta.append({"engine": engine, "types": types, "rows": rows if len(rows) < 40 else f"{len(rows)} rows", "options": oname})
+                nprobes.append(ps)
     try:
         res = runner.run_many("sql", scripts, timeout=300, progress=500)
     finally:
@@ -90,7 +109,7 @@ def run(tier, seed):
                 os.remove(f)
             except OSError:
                 pass
-    for case, r in zip(meta, res):
+    for case, r, ps in zip(meta, res, nprobes):
         cid = core.case_id(case)
         tag = "+".join(t.split("(")[0] for t in case["types"])
         if r.get("abort"):
@@ -134,7 +153,20 @@ def run(tier, seed):
             chk.fail(cid, f"rows-differ@{tag}{esc}:" + "+".join(sorted(kinds)), case,
                      {"lost": [list(r) for r in list(lost.elements())[:6]], "extra": [list(r) for r in list(extra.elements())[:6]], "n": (len(a["rows"]), len(b["rows"]))})
             continue
-        chk.ok(cid, nontrivial=len(a["rows"]) > 0, outcome=f"rows={min(len(a['rows']), 9)}", sample={"case": case})
+        bad = None
+        compared = 0
+        for i, p_ in enumerate(ps):
+            pt, pu = rs[7 + 2 * i], rs[8 + 2 * i]
+            if U.status(pt) != "rows" or U.decode(pt)[0][0] in (0, "0"):
+                continue          # `=` is not defined for the type / the literal, or does not find the inserted row: no oracle
+            compared += 1
+            if U.status(pu) != "rows" or U.decode(pu) != U.decode(pt):
+                bad = (p_, pt, pu)
+                break
+        if bad:
+            chk.fail(cid, f"value-differs@{tag}{esc}", case, {"probe": bad[0], "exported_table": bad[1], "imported_table": bad[2]})
+            continue
+        chk.ok(cid, nontrivial=len(a["rows"]) > 0, outcome=f"rows={min(len(a['rows']), 9)},probes={min(compared, 3)}", sample={"case": case})
     chk.assumptions += ["the CSV file is written and read with the same option list"]
     return chk
 
